@@ -38,12 +38,13 @@ LIBS = ("vlib_verif",)
 def node_refs(node):
     """Referenced node indices in parameter order."""
     out = []
-    for k in ("A", "B", "C"):
+    for k in ("A", "B", "C", "TS", "TN"):
         if node.get(k) is not None:
             out.append(node[k])
     out.extend(node.get("L") or [])
     for inner in node.get("N") or []:
         out.extend(inner)
+    out.extend(node.get("TL") or [])
     return out
 
 
@@ -55,7 +56,9 @@ def expected_term(nodes, i, memo=None):
     memo = {} if memo is None else memo
     if i not in memo:
         n = nodes[i]
-        if n.get("src"):
+        if n.get("num"):
+            memo[i] = n["V"]  # a number-typed leaf returns the number itself; every consumer is fed exactly that
+        elif n.get("src"):
             memo[i] = [name(i), n["V"]]
         elif n.get("mute"):
             memo[i] = None
@@ -66,25 +69,57 @@ def expected_term(nodes, i, memo=None):
 
 def deps(nodes, i, acc=None):
     acc = set() if acc is None else acc
-    if i in acc:
-        return acc
-    acc.add(i)
-    for c in node_refs(nodes[i]):
-        deps(nodes, c, acc)
+    todo = [i]
+    while todo:  # no recursion: models may be hundreds of commands deep
+        j = todo.pop()
+        if j in acc:
+            continue
+        acc.add(j)
+        todo.extend(node_refs(nodes[j]))
     return acc
+
+
+def expand_deep(spec):
+    """A long model from a compact description: n commands, every one referencing its predecessor(s); all but the
+    source return None (Mute), so that results stay flat however deep the model is."""
+    n, style = spec["n"], spec["style"]
+    nodes = [{"src": True, "V": 7}]
+    for j in range(1, n):
+        node = {"mute": True}
+        if style == "chain":
+            node["A"] = j - 1
+        elif style == "list_chain":
+            node["L"] = [j - 1]
+        elif style == "nested_chain":
+            node["N"] = [[j - 1]]
+        else:  # ladder: every command is shared by its two successors
+            node["A"] = j - 1
+            node["L"] = [max(0, j - 2)]
+        nodes.append(node)
+    order = {"forward": list(range(n)), "reversed": list(range(n))[::-1],
+             "interleaved": list(range(0, n, 2)) + list(range(1, n, 2))}[spec["order"]]
+    return {"nodes": nodes, "order": order}
 
 
 def source_text(nodes, order):
     lines = []
     for i in order:
         n = nodes[i]
+        if n.get("num"):
+            lines.append("%s = NumSrc(V = %r)" % (name(i), n["V"]))
+            continue
         if n.get("src"):
             lines.append("%s = Src(V = %d)" % (name(i), n["V"]))
             continue
         args = []
-        for k in ("A", "B", "C"):
+        for k in ("A", "B", "C", "TS", "TN"):
             if n.get(k) is not None:
                 args.append("%s = %s" % (k, name(n[k])))
+        if n.get("TL") is not None:
+            args.append("TL = [%s]" % ", ".join(name(c) for c in n["TL"]))
+        if n.get("typed"):
+            lines.append("%s = Typed(%s)" % (name(i), ", ".join(args)))
+            continue
         if n.get("L") is not None:
             args.append("L = [%s]" % ", ".join(name(c) for c in n["L"]))
         if n.get("N") is not None:
@@ -139,13 +174,21 @@ def build(case):
     src_cls = prog.find_command_class("Src")
     for i in order:
         n = nodes[i]
+        if n.get("num"):
+            prog.add_command(prog.find_command_class("NumSrc"), name(i), {"V": n["V"]})
+            continue
         if n.get("src"):
             prog.add_command(src_cls, name(i), {"V": n["V"]})
             continue
         args = {}
-        for k in ("A", "B", "C"):
+        for k in ("A", "B", "C", "TS", "TN"):
             if n.get(k) is not None:
                 args[k] = ref(n[k])
+        if n.get("TL") is not None:
+            args["TL"] = [ref(c) for c in n["TL"]]
+        if n.get("typed"):
+            prog.add_command(prog.find_command_class("Typed"), name(i), args)
+            continue
         if n.get("L") is not None:
             args["L"] = [ref(c) for c in n["L"]]
         if n.get("N") is not None:
@@ -199,6 +242,9 @@ def extend(prog, nodes, specs, by_object):
 
 
 def check_case(case, rec):
+    if "deep" in case:
+        case = dict(case, **expand_deep(case["deep"]))
+        rec.label("deep:%d" % case["deep"]["n"])
     nodes = list(case["nodes"])
     n = len(nodes)
     vlog.reset()
@@ -277,9 +323,13 @@ def check_case(case, rec):
                 fails.append(Failure("wrong_result|%s" % sc, "%s = %r, expected %r\n%s" % (
                     name(i), r, expected_term(nodes, i, memo), source_text(nodes, case["order"]))))
                 break
+    if any(nd.get("typed") for nd in nodes):
+        rec.label("typed_references")
     rec.label("shape:" + sc)
     rec.label("build:" + case.get("build", "source"))
-    if cls["shared"] and cls["list_only"] and post_run_steps >= 1:
+    if "deep" in case:
+        rec.nontrivial_case(case["deep"])
+    elif cls["shared"] and cls["list_only"] and post_run_steps >= 1:
         rec.nontrivial_case(case)
         rec.label("nontrivial", sample=case if n <= 4 and len(case["steps"]) <= 3 else None)
     return fails
@@ -341,6 +391,14 @@ def small_dags(ctx):
                         yield {"nodes": vnodes, "order": list(range(n)), "build": "api_shared_lists", "steps": scripts[0]}
 
 
+def deep_cases(ctx):
+    for n in ((40, 400) if ctx.quick else (40, 150, 400, 1200, 3000)):
+        for style in ("chain", "list_chain", "nested_chain", "ladder"):
+            for order in ("forward", "reversed", "interleaved"):
+                for build, steps in (("source", ["run", ["read", n - 1], "run"]), ("api", [["read", n // 2], "run", ["read_twice", 1]])):
+                    yield {"deep": {"n": n, "style": style, "order": order}, "build": build, "steps": steps}
+
+
 @st.composite
 def dag_cases(draw):
     n = draw(st.integers(2, 12))
@@ -363,6 +421,26 @@ def dag_cases(draw):
         if draw(st.integers(0, 5)) == 0:
             node["mute"] = True
         nodes.append(node)
+    typed = draw(st.integers(0, 2)) == 0
+    if typed:
+        # references with a declared result type: number-typed leaves consumed through text-typed and number-typed
+        # parameters by several commands -- every consumer is fed the leaf's own finished result
+        base = len(nodes)
+        k = draw(st.integers(1, 3))
+        for _ in range(k):
+            nodes.append({"num": True, "V": draw(st.sampled_from([3, 2.5, 0, -1, 10 ** 12, 0.1]))})
+        pick = st.integers(base, base + k - 1)
+        for _ in range(draw(st.integers(2, 4))):
+            node = {"typed": True}
+            if draw(st.booleans()):
+                node["TS"] = draw(pick)
+            if draw(st.booleans()):
+                node["TN"] = draw(pick)
+            if draw(st.booleans()):
+                node["TL"] = draw(st.lists(pick, max_size=3))
+            nodes.append(node)
+        nodes.append({"A": draw(pick), "L": [draw(st.integers(base, len(nodes) - 1)) for _ in range(draw(st.integers(0, 3)))]})
+        n = len(nodes)
     order = list(draw(st.permutations(list(range(n)))))
     steps = draw(st.lists(st.one_of(st.just("run"), st.tuples(st.sampled_from(["read", "read_twice"]), st.integers(0, 40)).map(list)),
                           min_size=1, max_size=12))
@@ -376,7 +454,8 @@ def dag_cases(draw):
             steps.insert(draw(st.integers(0, len(steps))), ["extend", draw(st.lists(spec, min_size=1, max_size=3))])
         if draw(st.booleans()):
             steps.append("run")
-    return {"nodes": nodes, "order": order, "build": draw(st.sampled_from(["source", "api", "api_objects", "api_shared_lists"])), "steps": steps}
+    builds = ["source", "api", "api_objects"] + ([] if typed else ["api_shared_lists"])
+    return {"nodes": nodes, "order": order, "build": draw(st.sampled_from(builds)), "steps": steps}
 
 
 # ----------------------------------------------------------------------------------- built-in commands
@@ -440,5 +519,6 @@ def run_shard(ctx, rec):
     from ..gen import models as M
 
     drive_enum(ctx, rec, "dag", small_dags(ctx), check_case, exhaustive=True)
+    drive_enum(ctx, rec, "dag", deep_cases(ctx), check_case, exhaustive=True, tag="dag/deep")
     drive(ctx, rec, "dag", dag_cases(), check_case, ctx.n(3000, 80000))
     drive(ctx, rec, "builtin", M.typed_models(max_nodes=8, clean=True), check_builtin, ctx.n(600, 15000))
